@@ -326,15 +326,6 @@ theorem keep_writeSignal (S : Strs) (cfg : Cfg) (s : State) (b : Nat) : Keep s (
       simp only [List.map_nil, List.append_nil, List.mem_append] at hy ⊢
       exact hy
 
-theorem keep_runTasks (S : Strs) (cfg : Cfg) (s : State) : Keep s (runTasks S cfg s) := by
-  unfold runTasks
-  have : ∀ (ts : List Nat) (s0 : State), Keep s0 (ts.foldl (writeSignal S cfg) s0) := by
-    intro ts
-    induction ts with
-    | nil => intro s0; exact Keep.refl s0
-    | cons t ts ih => intro s0; exact Keep.trans (keep_writeSignal S cfg s0 t) (ih _)
-  exact Keep.trans (this s.tasks s) (keep_of_eq _ _ rfl rfl)
-
 
 /-- open connections stay open -/
 def OpenMono (s s' : State) : Prop :=
@@ -1002,6 +993,20 @@ theorem noOrphan_backendClose (S : Strs) (s : State) (b : Nat) (h : NoOrphan s) 
         unfold backendClose State.backend; rw [hx]; simp [ho]
       rw [this]; exact h
 
+theorem noOrphan_runTasks (S : Strs) (cfg : Cfg) (s : State) (h : NoOrphan s) : NoOrphan (runTasks S cfg s) := by
+  unfold runTasks
+  have : ∀ (ts : List Task) (s0 : State), NoOrphan s0 → NoOrphan (ts.foldl (runTask S cfg (backendClose S)) s0) := by
+    intro ts
+    induction ts with
+    | nil => intro s0 h0; exact h0
+    | cons t ts ih =>
+      intro s0 h0
+      apply ih
+      cases t with
+      | write b => exact noOrphanX_keep _ _ none (keep_writeSignal S cfg s0 b) h0
+      | close b => exact noOrphan_backendClose S s0 b h0
+  exact noOrphanX_keep _ _ none (keep_of_eq _ _ rfl rfl) (this s.tasks s h)
+
 theorem keep_expire (S : Strs) (s : State) : Keep s (expire S s) := by
   unfold expire
   dsimp only
@@ -1037,10 +1042,11 @@ theorem goodP_step (T : Tables) (S : Strs) (cfg : Cfg) (slotFn : Bytes → Nat) 
       | connect admitted => exact Or.inr (noOrphanX_keep _ _ none (keep_of_eq s { s with clients := _ } rfl rfl) h)
       | clientBytes c chunk chs => exact Or.inr (noOrphan_clientBytes T S cfg slotFn s c chunk chs h)
       | clientClose c => exact Or.inr (noOrphanX_keep _ _ none (keep_closeClient s c) h)
-      | runTasks => exact Or.inr (noOrphanX_keep _ _ none (keep_runTasks S cfg s) h)
+      | runTasks => exact Or.inr (noOrphan_runTasks S cfg s h)
       | backendBytes b chunk => exact goodP_backendBytes T S cfg slotFn s b chunk h
       | backendClose b => exact Or.inr (noOrphan_backendClose S s b h)
       | expire => exact Or.inr (noOrphanX_keep _ _ none (keep_expire S s) h)
+      | poolRemove p => exact Or.inr (noOrphanX_keep _ _ none (keep_of_eq _ _ (same_poolRemove s p).2 (bsame_poolRemove s p)) h)
 
 theorem goodP_run (T : Tables) (S : Strs) (cfg : Cfg) (slotFn : Bytes → Nat) (es : List Event) (s : State) (h : GoodP s) :
     GoodP (run T S cfg slotFn s es) := by
